@@ -9,6 +9,7 @@ import (
 	"fmt"
 	"github.com/transparency-dev/witness/internal/persistence"
 	"io/fs"
+	"net/http"
 	"os"
 	"strings"
 	"sync"
@@ -17,7 +18,9 @@ import (
 	"time"
 
 	"github.com/transparency-dev/formats/log"
+	"github.com/transparency-dev/witness/internal/config"
 	"github.com/transparency-dev/witness/internal/feeder"
+	"github.com/transparency-dev/witness/internal/feeder/rekor"
 	"github.com/transparency-dev/witness/internal/persistence/inmemory"
 	"github.com/transparency-dev/witness/internal/witness"
 	"github.com/transparency-dev/witness/omniwitness"
@@ -414,10 +417,28 @@ func c13Exec(t *testing.T, p *Plan) (r *c13Result) {
 		if p.Cfg.Notes["mode"] == "run" {
 			// the polling loop: it must stop when its context ends, also in the middle of a failing cycle
 			interval := time.Duration(ex["interval_s"]) * time.Second
-			go func() {
-				defer close(done)
-				r.err = feeder.Run(ctx, interval, opts)
-			}()
+			if ex["rekor"] == 1 {
+				// the Rekor feeder's own loop and its own proof source, against a Rekor stub on the simulated network: what IT
+				// asks the witness for is judged like any other feeder's
+				st := &tileStub{tree: ld.Branches[lbranch], origin: ld.Origin, key: ld.Key, world: w, keyIdx: ld.KeyIdx, kind: "rekor", size: lsize}
+				sn := NewSimNet()
+				sn.Hosts["rekor.example"] = &rekorStub{st: st, treeID: "4242"}
+				lc, err := config.NewLog(ld.Origin, ld.Key.VerifierString(), "http://rekor.example?treeID=4242")
+				if err != nil {
+					r.infra = "rekor log configuration: " + err.Error()
+					return
+				}
+				hc := &http.Client{Transport: sn, Timeout: 10 * time.Second}
+				go func() {
+					defer close(done)
+					r.err = rekor.FeedLog(ctx, lc, fw, hc, interval)
+				}()
+			} else {
+				go func() {
+					defer close(done)
+					r.err = feeder.Run(ctx, interval, opts)
+				}()
+			}
 			cancelAfter := time.Duration(ex["cancel_after_ms"]) * time.Millisecond
 			if ex["between_cycles"] == 1 && fw.compete != nil {
 				// between two poll cycles somebody else (the bastion endpoint, another feeder) moves the witness on: the next
@@ -567,6 +588,28 @@ func oracleC13(p *Plan, r *c13Result) []Violation {
 					add("wrong_old_size", "later_cycle", fmt.Sprintf("between two poll cycles the witness moved to size %d; in a later cycle the feeder passed old size %d (calls: %s)", r.betweenState.Size, c.Old, callString(r.calls)))
 				}
 				break
+			}
+		}
+		if p.Cfg.Extra["rekor"] == 1 {
+			// every step the Rekor feeder asks for is justified: the proof it passes is the log's consistency proof between the
+			// old size it names and the checkpoint it submits (judged only where the witness refused: a proof it accepted was valid)
+			for _, c := range r.calls {
+				if c.Kind != "U" || c.Failed || c.Err == nil {
+					continue
+				}
+				sub := parseStored(c.CP)
+				if sub.Bad || c.Old == 0 || c.Old >= sub.Size {
+					continue
+				}
+				want := ld.Branches[int(p.Cfg.Extra["lbranch"])].ConsistencyProof(c.Old, sub.Size)
+				same := len(want) == len(c.Proof)
+				for i := 0; same && i < len(want); i++ {
+					same = string(want[i]) == string(c.Proof[i])
+				}
+				if !same {
+					add("wrong_proof", "rekor_feeder", fmt.Sprintf("the Rekor feeder asked the witness to go from size %d to %d with a proof of %d hashes that is not the log's consistency proof between those sizes (%d hashes); the witness refused: %v (calls: %s)", c.Old, sub.Size, len(c.Proof), len(want), c.Err, callString(r.calls)))
+					break
+				}
 			}
 		}
 		if !r.returned || r.runReturnDelay > 3*time.Second {
@@ -784,7 +827,7 @@ func init() {
 	register(&Scenario{
 		Prop:  "C13",
 		Level: "fault_enumeration",
-		Rule:  "feeder.FeedOnce on the fake clock against a recording witness (scripted stub, or the real witness through the real witnessAdapter, optionally with a competing writer moving it between the feeder's read and its update) and a harness log party (honest or forked, first use, equality, witness ahead, unverifiable, misframed - genuine but with a surplus or missing final newline - or unfetchable checkpoint); per seeded shape EVERY distribution of 0..4 transient failures over get-latest / fetch-proof / update (121 patterns) is executed, plus context cancellation at every call and during every backoff sleep; oracle on the recorded calls per attempt (old size, proof pair, proof passed on unchanged, nothing when ahead, only verifiable checkpoints), on the result (success on the attempt after the last failure, returns the witness's bytes, real witness holds them) and on cancellation (no new attempt). evaluations = executions; non-trivial = at least one injected failure or cancellation fired; distinct = distinct (shape, pattern or cancel point, call string) tuples",
+		Rule:  "feeder.FeedOnce on the fake clock against a recording witness (scripted stub, or the real witness through the real witnessAdapter, optionally with a competing writer moving it between the feeder's read and its update) and a harness log party (honest or forked, first use, equality, witness ahead, unverifiable, misframed - genuine but with a surplus or missing final newline - or unfetchable checkpoint); per seeded shape EVERY distribution of 0..4 transient failures over get-latest / fetch-proof / update (121 patterns) is executed, plus context cancellation at every call and during every backoff sleep; oracle on the recorded calls per attempt (old size, proof pair, proof passed on unchanged, nothing when ahead, only verifiable checkpoints), on the result (success on the attempt after the last failure, returns the witness's bytes, real witness holds them) and on cancellation (no new attempt); per real-witness shape also one polling run of the real Rekor feeder (internal/feeder/rekor.FeedLog, its own proof source) against a Rekor stub on the simulated network while a competing writer moves the witness between its read and its update: a proof the witness refuses must be the log's consistency proof between the old size named and the size submitted. evaluations = executions; non-trivial = at least one injected failure or cancellation fired; distinct = distinct (shape, pattern or cancel point, call string) tuples",
 		Gen: func(r *Rng, tier string, n uint64) *Plan {
 			p := &Plan{Scenario: "feed"}
 			p.Cfg = Config{Store: "mem", Dense: 1024, WitKeys: []string{"ed:0", "cosig:0"},
@@ -937,7 +980,7 @@ func init() {
 				}
 			}
 			// the polling loop under cancellation: mid-cycle (witness failing) and between cycles
-			for _, rc := range [][3]int64{{60, 700, 1}, {60, 7000, 1}, {10, 25000, 1}, {60, 90000, 0}, {30, 31000, 0}, {30, 100000, 2}} {
+			for _, rc := range [][3]int64{{60, 700, 1}, {60, 7000, 1}, {10, 25000, 1}, {60, 90000, 0}, {30, 31000, 0}, {30, 100000, 2}, {30, 100000, 3}} {
 				q := p.Clone()
 				q.Cfg.Extra["enum"] = 0
 				q.Cfg.Notes["mode"] = "run"
@@ -946,6 +989,19 @@ func init() {
 						continue
 					}
 					q.Cfg.Extra["between_cycles"] = 1
+				}
+				if rc[2] == 3 {
+					// the Rekor feeder against the real witness, which another feeder moves on between this feeder's read and its
+					// update: the retry starts from the witness's new size and needs a proof from THERE
+					if q.Cfg.Extra["real"] != 1 {
+						continue
+					}
+					q.Cfg.Extra["rekor"], q.Cfg.Extra["compete"], q.Cfg.Notes["cp"] = 1, 1, ""
+					q.Cfg.Extra["wbranch"], q.Cfg.Extra["lbranch"] = 0, 0
+					q.Cfg.Extra["wsize"] = 1 + int64(p.Seed%7)
+					q.Cfg.Extra["lsize"] = q.Cfg.Extra["wsize"] + q.Cfg.Extra["cdelta"] + 2 + int64(p.Seed/7%9)
+					delete(q.Cfg.Extra, "sfail")
+					delete(q.Cfg.Extra, "execfail")
 				}
 				q.Cfg.Extra["interval_s"], q.Cfg.Extra["cancel_after_ms"] = rc[0], rc[1]
 				q.Cfg.Notes["fail"] = ""
@@ -969,7 +1025,7 @@ func init() {
 			"internal/feeder (FeedOnce, submitToWitness, backoff)":            "real",
 			"omniwitness.witnessAdapter + internal/witness + in-memory store": "real (in the 'real witness' half of the shapes)",
 			"witness (other half)":                    "recording stub that accepts anything, as the suite's fake does, but remembers its latest checkpoint",
-			"log party (FetchCheckpoint, FetchProof)": "harness stub over the reference tree",
+			"log party (FetchCheckpoint, FetchProof)": "harness stub over the reference tree; in one polling-mode run per real-witness shape the real internal/feeder/rekor FeedLog against a Rekor stub on simnet",
 			"clock, backoff timers":                   "synctest fake clock; backoff jitter from math/rand pinned by randautoseed=0",
 		},
 		Assumptions: []string{"an injected failure hits one step of one attempt and is transient", "cancellation is judged leniently: calls of the attempt in progress may complete, a new attempt must not start; during a backoff sleep no call at all may follow"},
